@@ -126,7 +126,7 @@ reg(Zoo(
 # hier3: root -> Mid -> Leaf, the same event guarded at all three levels
 reg(Zoo(
     name='hier3',
-    events=['e1', 'e2', 'e3', 'e4', 'e5'],
+    events=['e1', 'e2', 'e3', 'e4', 'e5', 'e6'],
     root=Machine(
         'Top',
         states=[
@@ -141,6 +141,8 @@ reg(Zoo(
                         initial=['L1'],
                         # e5 occurs in Leaf's table only (not in Mid's): Top must still forward it two levels down
                         rows=[R('L1', 'e1', 'L2'), R('L2', 'e1', 'L1'), R('L1', 'e4', 'L2', a=False), R('L2', 'e5', 'L1'), R('L1', 'e5', None, a=False)],
+                        # e6 occurs ONLY here, in the innermost machine's own (machine-level) internal table
+                        irows=[IR('e6')],
                     )),
                     S('N1'), S('N2'),
                 ],
@@ -494,16 +496,16 @@ def _root_history():
 _root_history()
 
 # ------------------------------------------------------------------------------------------------
-# hier4: hier3 wrapped once more (Top4 -> Top -> Mid -> Leaf); event e6 has rows in the innermost machine only, three
+# hier4: hier3 wrapped once more (Top4 -> Top -> Mid -> Leaf); event e7 has rows in the innermost machine only, three
 # submachine levels below the machine that receives it
 def _hier4():
     import copy
     inner = copy.deepcopy(ZOO['hier3'].root)
     leaf = inner.state('Mid').sub.state('Leaf').sub
-    leaf.rows += [R('L1', 'e6', 'L2'), R('L2', 'e6', 'L1', a=False)]
+    leaf.rows += [R('L1', 'e7', 'L2'), R('L2', 'e7', 'L1', a=False)]
     reg(Zoo(
         name='hier4',
-        events=['e1', 'e2', 'e3', 'e4', 'e5', 'e6'],
+        events=['e1', 'e2', 'e3', 'e4', 'e5', 'e6', 'e7'],
         root=Machine(
             'Top4',
             states=[S('O1'), S('Top', kind='sub', sub=inner), S('O2')],
